@@ -416,9 +416,16 @@ impl DS {
             let _ = sym.clone();
             acc
         });
+        // the final numbers: once per orbit, at its first chamber (set_v is an operation on the orbit)
         for i in 0..self.dim {
+            let mut seen = vec![false; self.size + 1];
             for d in 1..=self.size {
-                sym.set_v(i, d, self.v[i][d]);
+                if !seen[d] {
+                    for e in self.orbit2(i, i + 1, d) {
+                        seen[e] = true;
+                    }
+                    sym.set_v(i, d, self.v[i][d]);
+                }
             }
         }
         sym
